@@ -264,17 +264,26 @@ class VartypeView:
 
     @view_method
     def set_linear(self, v: Variable, bias: Bias):
+        # a bias that is not a number must raise before `v` is added
+        delta = bias - (self.get_linear(v) if v in self.variables else 0)
         self.add_linear(v, 0)  # make sure it exists
-        self.add_linear(v, bias - self.get_linear(v))  # just add the delta
+        self.add_linear(v, delta)  # just add the delta
 
     def set_quadratic(self, u: Variable, v: Variable, bias: Bias):
         if u == v:
             raise ValueError(f"{u!r} cannot have an interaction with itself")
+        if u is None or v is None:
+            raise ValueError("unknown variable None")
+        hash(v), v in self.variables  # an unusable label or bias must raise before anything is added
+        try:
+            delta = bias - self.get_quadratic(u, v)
+        except ValueError:
+            delta = bias - 0  # no such interaction yet
         self.add_variable(u)
         self.add_variable(v)
         # just add the delta
         self.add_quadratic(u, v, 0)  # make sure it exists
-        self.add_quadratic(u, v, bias - self.get_quadratic(u, v))
+        self.add_quadratic(u, v, delta)
 
     def to_numpy_vectors(self, *args, **kwargs):
         raise NotImplementedError  # defer to the caller
